@@ -147,6 +147,23 @@ pub fn generate(ch: &mut Chooser, o: &NetOpts) -> NetPlan {
             }
         }
     }
+    // the announce interval is a per-port setting: in a quarter of the networks segments differ
+    // (all ports of one segment agree, ports of one boundary clock need not)
+    let mut max_log = announce_log;
+    if ch.chance(S_CFG, 1, 4) {
+        for seg in 0..seg_members.len() {
+            let off = *ch.pick(S_CFG, &[0i8, 0, 1, 2]);
+            for nd in nodes.iter_mut() {
+                for ps in nd.ports.iter_mut() {
+                    if ps.segment == Some(seg) {
+                        ps.announce_log = announce_log + off;
+                    }
+                }
+            }
+            max_log = max_log.max(announce_log + off);
+        }
+    }
+    let announce_log = max_log;
     // re-evaluate (class change cannot make a node better than the previous best)
     let seg_delay = (0..seg_members.len())
         .map(|_| (ch.range(S_CFG, 1, 400) as u128 * US, ch.range(S_CFG, 0, 20) as u128 * US))
@@ -192,7 +209,7 @@ pub fn describe(plan: &NetPlan) -> serde_json::Value {
         "segments": plan.seg_delay.iter().map(|(d,j)| json!({"delay_us": (*d / US) as u64, "jitter_us": (*j / US) as u64})).collect::<Vec<_>>(),
         "nodes": plan.nodes.iter().map(|n| json!({
             "id": Pid::new(n.id,0).short(), "p1": n.priority1, "class": n.class, "acc": n.accuracy, "var": n.variance, "p2": n.priority2,
-            "slave_only": n.slave_only, "ports": n.ports.iter().map(|p| p.segment).collect::<Vec<_>>(), "p2p_ports": n.ports.iter().map(|p| p.p2p).collect::<Vec<_>>(),
+            "slave_only": n.slave_only, "ports": n.ports.iter().map(|p| p.segment).collect::<Vec<_>>(), "p2p_ports": n.ports.iter().map(|p| p.p2p).collect::<Vec<_>>(), "announce_logs": n.ports.iter().map(|p| p.announce_log).collect::<Vec<_>>(),
             "drift_ppm": n.drift_ppt as f64 / 1e6, "timer_skew_ppm": n.timer_skew_ppt as f64 / 1e6,
             "bmca_period_delta_ms": (n.bmca_period_delta / MS as i128) as i64, "bmca_phase_pm": n.bmca_phase_pm,
         })).collect::<Vec<_>>(),
